@@ -222,12 +222,20 @@ def fam_expr_fixed():
         "neg": ["neg", ["cmp", ">", B, K(0)]],
         "nested": ["or", ["cmp", ">", A, K(5)], ["cmp", "<", B, K(0)]],
         "arith": ["bin", "-", A, K(3)],
+        "int5": K(5),
+        "int0": K(0),
+        "intneg": K(-2),
     }
     for ln, le in shapes.items():
-        for rn, re_ in (("cmpc", ["cmp", ">", C, K(0)]), ("sum", shapes["sum"]), ("sig", C), ("not", ["not", C])):
+        for rn, re_ in (("cmpc", ["cmp", ">", C, K(0)]), ("sum", shapes["sum"]), ("sig", C), ("not", ["not", C]), ("int2", K(2)), ("int0", K(0))):
+            if le[0] == "k" and re_[0] == "k":
+                continue
             for op in ("and", "or"):
                 add(f"bool-{op}-{ln}-{rn}", [["sig", "o", ["proj", [op, le, re_], "signal-X"]]])
     for ln, le in shapes.items():
+        if le[0] == "k":
+            add(f"bool-intvar-{ln}", [["int", "k", le], ["sig", "o", ["proj", ["and", A, V("k")], "signal-X"]], ["sig", "o2", ["proj", ["or", V("k"), B], "signal-Y"]]])
+            continue
         add(f"bool-not-{ln}", [["sig", "o", ["proj", ["not", le], "signal-X"]]])
         add(f"bool-named-{ln}", [["sig", "m", le], ["sig", "o", ["proj", ["and", V("m"), ["cmp", ">", C, K(0)]], "signal-X"]]])
     # the same computation wanted on different channels
@@ -389,6 +397,24 @@ def fam_bundle_fixed():
     add("chain3-add", [["bun", "b", LIN], ["bun", "r", ["bin", "+", ["bin", "+", ["bin", "+", V("b"), K(1)], K(2)], K(3)]]])
     add("chain3-mul", [["bun", "b", LIN], ["bun", "r", ["bin", "*", ["bin", "*", ["bin", "*", V("b"), K(2)], K(3)], K(5)]]])
     add("chain3-gates", [["bun", "b", LIN], ["bun", "g", ["cond", ["cmp", ">", V("s"), K(2)], V("b")]], ["bun", "h", ["cond", ["cmp", ">", V("t"), K(0)], V("g")]], ["bun", "i", ["cond", ["cmp", "<", V("s"), K(100)], V("h")]]])
+    # the scalar operand IS one of the bundle's own members (same source), also via a computed member
+    for op in ("+", "*", "-", "/", "AND"):
+        add(f"in-opmember-{op}", [["bun", "b", LIN], ["bun", "r", ["bin", op, V("b"), V("a")]]])
+        add(f"mix-opmember-{op}", [["bun", "b", LMIX], ["bun", "r", ["bin", op, V("b"), V("a")]]])
+    add("opmember-computed", [["sig", "m", ["bin", "*", V("s"), K(2)]], ["bun", "b", ["bundle", [V("a"), V("m"), ["lit", "signal-B", K(-4)]]]], ["bun", "r", ["bin", "+", V("b"), V("m")]]])
+    add("opmember-filter", [["bun", "b", LIN], ["bun", "r", ["cond", ["cmp", ">", V("b"), V("a")], V("b")]]])
+    # bundle literal member VALUES supplied by int variables, iterators and parameters (with shadowed names)
+    add("lit-int-var", [["int", "n", K(7)], ["bun", "b", ["bundle", [["lit", "signal-B", V("n")], ["lit", "coal", ["bin", "*", V("n"), K(10)]], V("a")]]], ["bun", "r", ["bin", "*", V("b"), K(2)]]])
+    # (one call / one iteration each: bundle constants of several calls or iterations are summed on the pinned tree)
+    mkf = lambda body, ret: ["func", "mk", [["int", "n"], ["Signal", "x"]], body, ret]  # noqa: E731
+    CB = ["bun", "cb", ["bundle", [["lit", "signal-C", V("n")], ["lit", "coal", ["bin", "*", V("n"), K(10)]], ["lit", "signal-B", ["neg", V("n")]]]]]
+    add("lit-param-shadows-int-sel", [["int", "n", K(7)], mkf([CB], ["bin", "+", ["sel", V("cb"), "coal"], V("x")]), ["sig", "o1", ["proj", ["call", "mk", [K(3), V("a")]], "signal-X"]]])
+    add("lit-param-shadows-int-any", [["int", "n", K(7)], mkf([CB], ["cmp", ">", ["any", V("cb")], V("x")]), ["sig", "o1", ["proj", ["call", "mk", [K(3), V("a")]], "signal-X"]]])
+    add("lit-param-shadows-int-arith", [["int", "n", K(7)], mkf([CB, ["bun", "db", ["bin", "*", V("cb"), K(2)]]], ["bin", "+", ["sel", V("db"), "signal-C"], V("x")]), ["sig", "o1", ["proj", ["call", "mk", [K(3), V("a")]], "signal-X"]]])
+    add("lit-param-no-shadow", [mkf([CB], ["bin", "+", ["sel", V("cb"), "coal"], V("x")]), ["sig", "o1", ["proj", ["call", "mk", [K(3), V("a")]], "signal-X"]]])
+    add("lit-iterator-shadows-int", [["int", "n", K(7)], ["for", "n", ["list", [3]], [CB, ["bun", "db", ["bin", "*", V("cb"), K(2)]], ["place", "l", "small-lamp", V("n"), K(0), None], ["enable", "l", ["cmp", ">", ["any", V("db")], V("a")]],
+                                                                                       ["place", "k", "small-lamp", V("n"), K(2), None], ["enable", "k", ["cmp", "<", ["all", V("cb")], V("a")]]]]])
+    add("lit-iterator", [["for", "i", ["list", [4]], [["bun", "cb", ["bundle", [["lit", "signal-B", V("i")], ["lit", "coal", ["bin", "+", V("i"), K(1)]]]]], ["place", "l", "small-lamp", V("i"), K(0), None], ["enable", "l", ["cmp", ">", ["any", ["bin", "*", V("cb"), K(3)]], V("a")]]]]])
     add("nested", [["bun", "b", LIN], ["bun", "n", ["bundle", [V("b"), ["lit", "coal", K(3)]]]], ["bun", "r", ["bin", "*", V("n"), K(2)]]])
     add("nested2", [["bun", "b", L3], ["bun", "b2", ["bundle", [V("a"), V("c")]]], ["bun", "n", ["bundle", [V("b"), V("b2")]]]])
     add("zero-all", [["bun", "b", ["bundle", [["lit", "signal-B", K(0)], ["lit", "coal", K(0)]]]], ["sig", "r", ["cmp", ">", ["all", V("b")], K(5)]], ["sig", "r2", ["cmp", ">", ["any", V("b")], K(5)]]])
@@ -735,6 +761,25 @@ def fam_entity_fixed():
     for proto in ENABLE_PROTOS:
         progs.append(_ent_prog(f"efixed-{proto}-gt", [["place", "e0", proto, K(0), K(0), None], ["enable", "e0", ["cmp", ">", A, K(10)]]], fam="fixed"))
         progs.append(_ent_prog(f"efixed-{proto}-expr", [["place", "e0", proto, K(-4), K(2), None], ["enable", "e0", ["cmp", ">", ["bin", "+", A, B], K(10)]]], fam="fixed"))
+    # boolean algebra in enables: every pairing of a 0/1 producer with a plain (possibly negative) signal
+    shapes6 = {"cmp": ["cmp", ">", A, K(3)], "sig": B, "sigitem": C, "neg": ["neg", B], "arith": ["bin", "-", B, K(3)], "not": ["not", B], "cmp2": ["cmp", "<", B, K(0)]}
+    for ln, le in shapes6.items():
+        for rn, re_ in shapes6.items():
+            if ln == rn:
+                continue
+            for opn in ("and", "or"):
+                progs.append(_ent_prog(f"efixed-bool-{opn}-{ln}-{rn}", [lamp(0), ["enable", "e0", [opn, le, re_]]], fam="fixed"))
+    # AND chain and OR chain over the SAME comparisons in one program
+    progs.append(_ent_prog("efixed-and-and-or-same-cmps", [lamp(0), lamp(1), ["enable", "e0", ["and", ["cmp", ">", A, K(3)], ["cmp", ">", B, K(3)]]], ["enable", "e1", ["or", ["cmp", ">", A, K(3)], ["cmp", ">", B, K(3)]]]], fam="fixed"))
+    progs.append(_ent_prog("efixed-or-then-and-same-cmps", [lamp(0), lamp(1), ["enable", "e0", ["or", ["cmp", "<", A, K(0)], ["cmp", "==", B, K(7)]]], ["enable", "e1", ["and", ["cmp", "<", A, K(0)], ["cmp", "==", B, K(7)]]]], fam="fixed"))
+    progs.append(_ent_prog("efixed-three-chains", [lamp(0), lamp(1), lamp(2), ["enable", "e0", ["and", ["cmp", ">", A, K(3)], ["and", ["cmp", ">", B, K(3)], ["cmp", ">", C, K(3)]]]], ["enable", "e1", ["or", ["cmp", ">", A, K(3)], ["or", ["cmp", ">", B, K(3)], ["cmp", ">", C, K(3)]]]], ["enable", "e2", ["or", ["and", ["cmp", ">", A, K(3)], ["cmp", ">", B, K(3)]], ["cmp", ">", C, K(3)]]]], fam="fixed"))
+    # two producers of the same kind and signal, each driving far-apart entities (relays needed)
+    din = [("a", "signal-A", 10007), ("b", "signal-B", 10009), ("c", "iron-plate", 10037), ("d", "signal-A", 10039)]
+    for dist in (24, 30):
+        progs.append(_ent_prog(f"efixed-two-inputs-far-{dist}", [["place", "p0", "small-lamp", K(0), K(0), None], ["place", "p1", "small-lamp", K(dist), K(0), None], ["place", "q0", "small-lamp", K(0), K(1), None], ["place", "q1", "small-lamp", K(dist), K(1), None],
+                                                                 ["enable", "p0", ["cmp", ">", A, K(3)]], ["enable", "p1", ["cmp", ">", A, K(3)]], ["enable", "q0", ["cmp", ">", V("d"), K(3)]], ["enable", "q1", ["cmp", ">", V("d"), K(3)]]], fam="fixed", inputs=din))
+    progs.append(_ent_prog("efixed-two-computed-far", [["sig", "x1", ["bin", "*", A, K(2)]], ["sig", "x2", ["bin", "*", V("d"), K(3)]], ["place", "p0", "small-lamp", K(0), K(0), None], ["place", "p1", "small-lamp", K(28), K(0), None], ["place", "q0", "small-lamp", K(0), K(2), None], ["place", "q1", "small-lamp", K(28), K(2), None],
+                                                       ["enable", "p0", ["cmp", ">", V("x1"), K(3)]], ["enable", "p1", ["cmp", ">", V("x1"), K(5)]], ["enable", "q0", ["cmp", ">", V("x2"), K(3)]], ["enable", "q1", ["cmp", ">", V("x2"), K(5)]]], fam="fixed", inputs=din))
     # `cond : value` assigned to enable (value signal / positive / negative / zero constant)
     for nm, val in (("sig", B), ("sigitem", C), ("k1", K(1)), ("k5", K(5)), ("kneg", K(-1)), ("k0", K(0)), ("expr", ["bin", "-", B, K(2)])):
         progs.append(_ent_prog(f"efixed-cond-{nm}", [lamp(0), ["enable", "e0", ["cond", ["cmp", ">", A, K(3)], val]]], fam="fixed"))
@@ -909,6 +954,22 @@ def fam_opt_fixed():
     add("dup-same", [["sig", "p", ["proj", ["bin", "*", A, K(3)], "signal-X"]], ["sig", "q", ["proj", ["bin", "+", ["bin", "*", A, K(3)], B], "signal-Y"]]])
     add("dup-outtype", [["sig", "p", ["proj", ["bin", "*", A, K(3)], "signal-X"]], ["sig", "q", ["proj", ["bin", "*", A, K(3)], "signal-Y"]]])
     add("dup-operand-order", [["sig", "p", ["proj", ["bin", "-", A, B], "signal-X"]], ["sig", "q", ["proj", ["bin", "-", B, A], "signal-Y"]]])
+    for op in ("-", "/", "%", "**", "<<", ">>"):
+        rhs_a, rhs_b = (A, K(2)) if op in ("**", "<<", ">>") else (A, B)
+        add(f"dup-order-{op}", [["sig", "p", ["proj", ["bin", op, rhs_a, rhs_b], "signal-X"]], ["sig", "q", ["proj", ["bin", op, rhs_b, rhs_a], "signal-X"]], ["sig", "s", ["proj", ["bin", "+", V("p"), ["proj", V("q"), "signal-Y"]], "signal-Z"]]])
+        add(f"dup-order-same-out-{op}", [["sig", "p", ["bin", op, rhs_a, rhs_b]], ["sig", "q", ["bin", op, rhs_b, rhs_a]], ["sig", "s", ["proj", ["bin", "+", ["proj", V("p"), "signal-X"], ["proj", V("q"), "signal-Y"]], "signal-Z"]]])
+    for op in ("+", "*", "AND", "OR", "XOR"):
+        add(f"dup-commuted-{op}", [["sig", "p", ["proj", ["bin", op, A, B], "signal-X"]], ["sig", "q", ["proj", ["bin", op, B, A], "signal-X"]], ["sig", "s", ["proj", ["bin", "-", V("p"), ["proj", V("q"), "signal-Y"]], "signal-Z"]]])
+    for nm, e in (("and-int", ["and", A, K(5)]), ("or-int", ["or", A, K(2)]), ("and-int0", ["and", A, K(0)]), ("or-int0", ["or", K(0), A]), ("and-cmp-int", ["and", ["cmp", ">", A, K(0)], K(3)]), ("not-and-int", ["not", ["and", A, K(5)]])):
+        add(f"logic-{nm}", [["sig", "o", ["proj", e, "signal-X"]]])
+    add("logic-int-var", [["int", "k", K(5)], ["sig", "o", ["proj", ["and", A, V("k")], "signal-X"]], ["sig", "p", ["proj", ["or", B, V("k")], "signal-Y"]]])
+    add("logic-iterator", [["for", "i", ["range", 0, 3, None], [["place", "l", "small-lamp", V("i"), K(0), None], ["enable", "l", ["and", A, V("i")]]]]])
+    for n in (2, 4, 6):
+        body = [["sig", "m", ["bin", "*", A, K(3)]]]
+        for i in range(n):
+            body.append(["sig", f"y{i}", ["proj", ["bin", "+", V("m"), A] if i % 2 == 0 else ["bin", "-", V("m"), A], f"signal-{chr(ord('C') + i)}"]])
+        add(f"fanout-same-type-{n}", body)
+    add("fanout-same-type-mixed", [["sig", "m", ["bin", "*", A, K(3)]], ["sig", "n2", ["bin", "+", A, K(1)]]] + [["sig", f"y{i}", ["proj", ["bin", "+", V("m"), V("n2")] if i % 2 else ["bin", "+", V("m"), A], f"signal-{chr(ord('C') + i)}"]] for i in range(5)])
     add("dup-cond-mode", [["sig", "p", ["cond", ["cmp", ">", A, K(0)], A]], ["sig", "q", ["cond", ["cmp", ">", A, K(0)], K(1)]], ["sig", "s", ["proj", ["bin", "+", V("p"), V("q")], "signal-X"]]])
     add("dup-cond-value", [["sig", "p", ["cond", ["cmp", ">", A, K(0)], B]], ["sig", "q", ["cond", ["cmp", ">", A, K(0)], C]], ["sig", "s", ["proj", ["bin", "+", V("p"), ["proj", V("q"), "signal-B"]], "signal-X"]]])
     add("dup-cmp-const", [["sig", "p", ["proj", ["cmp", ">", A, K(5)], "signal-X"]], ["sig", "q", ["proj", ["cmp", ">", A, K(6)], "signal-Y"]]])
@@ -1034,6 +1095,11 @@ def corpus_c12(tier):
     Qg = [["input", "a", "signal-A", 10007], ["sig", "x", ["bin", "*", V("a"), K(2)]], ["place", "l1", "small-lamp", K(0), K(4), None], ["place", "l2", "small-lamp", K(30), K(4), None], ["enable", "l1", ["cmp", ">", V("x"), K(5)]], ["enable", "l2", ["cmp", ">", V("x"), K(7)]]]
     cases.append(_pq_case("pq-green-fanout", Pg, Qg, random.Random("pq-green"), 3, dy=0))
     cases.append(_pq_case("pq-green-fanout-poles", Pg, Qg, random.Random("pq-green"), 2, dy=0, builds=POLE_BUILDS[:2]))
+    # the same inline typed literal used as an operand in two independent computations
+    def litprog(k, mul):
+        return [["input", "a", "signal-A", 10007], ["sig", "x", ["bin", "*", V("a"), ["lit", "signal-B", K(k)]]], ["sig", "y", ["proj", ["bin", "*", ["bin", "+", V("a"), ["lit", "signal-A", K(10)]], K(mul)], "signal-X"]]]
+    cases.append(_pq_case("pq-same-inline-literal", litprog(3, 2), litprog(3, 2), random.Random("pq-lit"), 3))
+    cases.append(_pq_case("pq-same-inline-literal-2", litprog(3, 2), litprog(3, 5), random.Random("pq-lit2"), 2, same_sentinels=True))
     # P and Q textually the same program with the SAME declared input values (only the names differ)
     for a in ("fixed-op-*", "fixed-opk-+", "fixed-reuse", "fixed-cond->", "fixed-cmp-<", "fixed-int-var", "fixed-multi-out", "fixed-sel-pattern"):
         rnd = random.Random(f"pq-same-{a}")
